@@ -8,6 +8,7 @@
 //!   `15 M <enable:0|1|-> <cookie_name|-> <cookie_header|-> <accept_header|->`
 //!   `15 S <parent_locale_idx|-> <initial_idx|-> <cookie_name|-> <cookie_header|-> <accept:-|N(one: pass no options)|hex>`
 //!   `16 <enable:0|1> <cookie_header|-> <accept_header|-> <op> <op> ...`   (ops: see `run16`)
+//!   `17`   the fixed-locale oracle tables of the plural and format accessors (see `tables_line`)
 //! Output: one line per scenario (see `run15_*`, `run16`), `PANIC` on a panic.
 #![allow(clippy::type_complexity)]
 
@@ -36,6 +37,10 @@ leptos_i18n::declare_locales! {
     pl: { hello: "hello@7", hello_n: "hello {{ n }}@7", sub: { inner: "inner@7", inner_n: "inner {{ n }}@7", deep: { leaf: "leaf@7", leaf_n: "leaf {{ n }}@7" } } },
 }
 use i18n::*;
+use leptos_i18n::{
+    t_format, t_format_display, t_format_string, t_plural, t_plural_ordinal, td_format, td_format_display, td_format_string, td_plural,
+    td_plural_ordinal, tu_format, tu_format_display, tu_format_string, tu_plural, tu_plural_ordinal,
+};
 
 fn idx(l: Locale) -> usize {
     Locale::get_all().iter().position(|x| *x == l).unwrap()
@@ -231,7 +236,7 @@ fn html(v: impl IntoView) -> String {
 // ---- payloads of the plural and format accessors, and the fixed-locale oracle tables (td_plural!, td_format!, ..)
 const COUNTS: [u64; 8] = [0, 1, 2, 3, 5, 11, 21, 100];
 const FORMS: [&str; 6] = ["zero", "one", "two", "few", "many", "other"];
-const NUMS: [f64; 3] = [2000.5, 1234567.891, 12.0];
+const NUMS: [f64; 3] = [2000.5, 1234567.891, 0.5];
 const DATES: [(i32, u8, u8); 2] = [(2024, 3, 5), (1999, 12, 31)];
 const LISTS: [&[&str]; 2] = [&["a", "b", "c"], &["x", "y"]];
 /// number of values of each formatter family (0 number, 1 date, 2 list)
@@ -371,22 +376,22 @@ macro_rules! wrap {
 
 /// the macros over a payload (`pl!` plural macros, `fm!` format macros) for every kind of context expression (as `ctx_arms`)
 macro_rules! payload_arms {
-    ($out:ident, $e:expr, $c:ident, [$($pre:tt)*]; $k:ident $kn:ident [$($full:tt)+] [$($fulln:tt)+] [$($sc:tt)+] $sk:ident $skn:ident [$($us:tt)+] $uk:ident $ukn:ident) => {{
+    ($out:ident, $e:expr, $c:ident, $cb:ident [$($args:tt)*]; $k:ident $kn:ident [$($full:tt)+] [$($fulln:tt)+] [$($sc:tt)+] $sk:ident $skn:ident [$($us:tt)+] $uk:ident $ukn:ident) => {{
         let holder = Holder { i18n: $c };
         match $e {
-            0 => wrap!($out, $($pre)*; $c)),
-            1 => wrap!($out, $($pre)*; use_i18n())),
-            2 => wrap!($out, $($pre)*; $($sc)+)),
-            3 => wrap!($out, $($pre)*; $($us)+)),
-            4 => wrap!($out, $($pre)*; holder.i18n)),
+            0 => wrap!($out, $cb!($($args)*; $c)),
+            1 => wrap!($out, $cb!($($args)*; use_i18n())),
+            2 => wrap!($out, $cb!($($args)*; $($sc)+)),
+            3 => wrap!($out, $cb!($($args)*; $($us)+)),
+            4 => wrap!($out, $cb!($($args)*; holder.i18n)),
             5 => {
                 let r: &'static _ = Box::leak(Box::new($c));
-                wrap!($out, $($pre)*; *r))
+                wrap!($out, $cb!($($args)*; *r))
             }
-            6 => wrap!($out, $($pre)*; { $c })),
-            7 => wrap!($out, $($pre)*; ($c))),
-            8 => wrap!($out, $($pre)*; holder.get())),
-            9 => wrap!($out, $($pre)*; idf($c))),
+            6 => wrap!($out, $cb!($($args)*; { $c })),
+            7 => wrap!($out, $cb!($($args)*; ($c))),
+            8 => wrap!($out, $cb!($($args)*; holder.get())),
+            9 => wrap!($out, $cb!($($args)*; idf($c))),
             _ => None,
         }
     }};
@@ -487,7 +492,9 @@ macro_rules! mk_handle {
             set: Box::new(move |l| $ctx.set_locale(l)),
             set_untracked: Box::new(move |l| $ctx.set_locale_untracked(l)),
             scope: Box::new($scope),
-            accessor: Box::new(move |m: usize, e: usize, i: usize| -> Option<Render> {
+            accessor: Box::new(move |m: usize, e: usize, i: usize, p: usize| -> Option<Render> {
+                let n = COUNTS[p % COUNTS.len()];
+                let v = p % 4;
                 match m {
                     0 => ctx_arms!(view, t, e, i, $ctx; $($lv)+),
                     1 => ctx_arms!(view, tu, e, i, $ctx; $($lv)+),
@@ -498,6 +505,34 @@ macro_rules! mk_handle {
                     6 => loc_arms!(view, td, e, i, $ctx; $($lv)+),
                     7 => loc_arms!(string, td_string, e, i, $ctx; $($lv)+),
                     8 => loc_arms!(string, td_display, e, i, $ctx; $($lv)+),
+                    9 => payload_arms!(closure, e, $ctx, pl [t_plural, n]; $($lv)+),
+                    10 => payload_arms!(string, e, $ctx, pl [tu_plural, n]; $($lv)+),
+                    11 => payload_arms!(closure, e, $ctx, pl [t_plural_ordinal, n]; $($lv)+),
+                    12 => payload_arms!(string, e, $ctx, pl [tu_plural_ordinal, n]; $($lv)+),
+                    13 | 14 => match (m, p / 4) {
+                        (13, 0) => payload_arms!(fview, e, $ctx, fm [view, 0, t_format, v]; $($lv)+),
+                        (13, 1) => payload_arms!(fview, e, $ctx, fm [view, 1, t_format, v]; $($lv)+),
+                        (13, 2) => payload_arms!(fview, e, $ctx, fm [view, 2, t_format, v]; $($lv)+),
+                        (14, 0) => payload_arms!(fview, e, $ctx, fm [view, 0, tu_format, v]; $($lv)+),
+                        (14, 1) => payload_arms!(fview, e, $ctx, fm [view, 1, tu_format, v]; $($lv)+),
+                        (14, 2) => payload_arms!(fview, e, $ctx, fm [view, 2, tu_format, v]; $($lv)+),
+                        _ => None,
+                    },
+                    15..=18 => match (m, p / 4) {
+                        (15, 0) => payload_arms!(string, e, $ctx, fm [string, 0, t_format_string, v]; $($lv)+),
+                        (15, 1) => payload_arms!(string, e, $ctx, fm [string, 1, t_format_string, v]; $($lv)+),
+                        (15, 2) => payload_arms!(string, e, $ctx, fm [string, 2, t_format_string, v]; $($lv)+),
+                        (16, 0) => payload_arms!(string, e, $ctx, fm [string, 0, tu_format_string, v]; $($lv)+),
+                        (16, 1) => payload_arms!(string, e, $ctx, fm [string, 1, tu_format_string, v]; $($lv)+),
+                        (16, 2) => payload_arms!(string, e, $ctx, fm [string, 2, tu_format_string, v]; $($lv)+),
+                        (17, 0) => payload_arms!(string, e, $ctx, fm [string, 0, t_format_display, v]; $($lv)+),
+                        (17, 1) => payload_arms!(string, e, $ctx, fm [string, 1, t_format_display, v]; $($lv)+),
+                        (17, 2) => payload_arms!(string, e, $ctx, fm [string, 2, t_format_display, v]; $($lv)+),
+                        (18, 0) => payload_arms!(string, e, $ctx, fm [string, 0, tu_format_display, v]; $($lv)+),
+                        (18, 1) => payload_arms!(string, e, $ctx, fm [string, 1, tu_format_display, v]; $($lv)+),
+                        (18, 2) => payload_arms!(string, e, $ctx, fm [string, 2, tu_format_display, v]; $($lv)+),
+                        _ => None,
+                    },
                     _ => None,
                 }
             }),
@@ -559,9 +594,9 @@ impl World {
     /// every accessor is rendered under the owner of its context (where `use_i18n()` finds that context)
     fn snapshot(&self) -> String {
         let h: Vec<String> = self.handles.iter().map(|h| format!("{}{}", idx((h.get)()), idx((h.get_tracked)()))).collect();
-        let pair = |c: &usize, a: &Render, b: &Render| self.owners[*c].with(|| format!("{}{}", locale_of_text(&a()), locale_of_text(&b())));
+        let pair = |c: &usize, a: &Render, b: &Render| self.owners[*c].with(|| format!("{}{}", a(), b()));
         let a: Vec<String> = self.accessors.iter().map(|(c, a, b)| pair(c, a, b)).collect();
-        let w: Vec<String> = self.watchers.iter().map(|w| locale_of_text(&w.cell.lock().unwrap())).collect();
+        let w: Vec<String> = self.watchers.iter().map(|w| w.cell.lock().unwrap().clone()).collect();
         let c: Vec<String> = self.logs.iter().map(|l| l.lock().unwrap().iter().map(|x| x.rsplit_once('=').map(|p| p.1.to_string()).unwrap_or_default()).collect::<Vec<_>>().join("+")).collect();
         let z: Vec<String> = self
             .frozen
@@ -569,7 +604,7 @@ impl World {
             .map(|f| match f {
                 Frozen::Acc(c, a, b) => pair(c, a, b),
                 Frozen::Watch(w) => {
-                    let d = locale_of_text(&w.cell.lock().unwrap());
+                    let d = w.cell.lock().unwrap().clone();
                     format!("{}{}", d, d)
                 }
             })
@@ -578,15 +613,18 @@ impl World {
     }
 
     /// one accessor of handle `h`, created under the owner of its context
-    fn make(&self, h: usize, fl: &str) -> Render {
+    /// the result renders the accessor and prints the rendering as one digit (`digit_of`)
+    fn make(&self, h: usize, fl: &str, p: &str) -> Render {
         let hd = &self.handles[h];
         let (m, e, i) = flavour(fl);
-        self.owners[hd.ctx].with(|| (hd.accessor)(m, e, i)).expect("unknown flavour")
+        let p: usize = p.parse().unwrap();
+        let raw = self.owners[hd.ctx].with(|| (hd.accessor)(m, e, i, p)).expect("unknown flavour");
+        Box::new(move || digit_of(m, p, &raw()))
     }
 
     /// a render effect showing one accessor of handle `h` (created before and outside the effect, rendered inside)
-    fn mount(&self, h: usize, fl: &str) -> Watcher {
-        let s = self.make(h, fl);
+    fn mount(&self, h: usize, fl: &str, p: &str) -> Watcher {
+        let s = self.make(h, fl, p);
         let cell: Arc<Mutex<String>> = Default::default();
         let c2 = cell.clone();
         let eff = self.owners[self.handles[h].ctx].with(|| RenderEffect::new(move |_| *c2.lock().unwrap() = s()));
@@ -598,9 +636,10 @@ impl World {
 ///   `N<parent ctx>,<signal idx|->,<cookie name hex|->`  new sub-context below context `parent` (provided to its own child owner)
 ///   `I<l>` new initial-locale signal   `W<s>,<l>` write signal s
 ///   `S<h>,<l>` set_locale   `U<h>,<l>` set_locale_untracked   `C<h>` scope handle h (new handle)
-///   `A<h>,<fa>,<fb>` create two accessors on handle h (flavours fa, fb: see `flavour`, `ctx_arms`, `loc_arms`)
+///   `A<h>,<fa>,<fb>[,<pa>,<pb>]` create two accessors on handle h (flavours fa, fb: see `flavour`, `ctx_arms`, `loc_arms`,
+///   `payload_arms`; payloads pa, pb of the plural / format macros: count index, formatter family * 4 + value index)
 ///   `Z<h>,<fa>,<fb>` the same, listed with the frozen observers
-///   `M<h>,<f>` mount a render effect showing an accessor of flavour f of handle h   `Y<h>,<f>` the same, listed with the
+///   `M<h>,<f>[,<p>]` mount a render effect showing an accessor of flavour f of handle h   `Y<h>,<f>` the same, listed with the
 ///   frozen observers
 ///   `G` no-op (just observe)   `F` flush (executor ticks until quiescent)
 /// output: `snapshot` after context creation and after every op, joined by `;`
@@ -667,7 +706,8 @@ async fn run16(f: &[&str]) -> String {
                 }
                 "A" | "Z" => {
                     let h: usize = a[0].parse().unwrap();
-                    let (x, y) = (w.make(h, a[1]), w.make(h, a[2]));
+                    let (pa, pb) = (a.get(3).copied().unwrap_or("0"), a.get(4).copied().unwrap_or("0"));
+                    let (x, y) = (w.make(h, a[1], pa), w.make(h, a[2], pb));
                     let c = w.handles[h].ctx;
                     if k == "A" {
                         w.accessors.push((c, x, y));
@@ -676,7 +716,7 @@ async fn run16(f: &[&str]) -> String {
                     }
                 }
                 "M" | "Y" => {
-                    let m = w.mount(a[0].parse().unwrap(), a[1]);
+                    let m = w.mount(a[0].parse().unwrap(), a[1], a.get(2).copied().unwrap_or("0"));
                     if k == "M" {
                         w.watchers.push(m);
                     } else {
@@ -720,6 +760,7 @@ fn main() {
                 ("15", Some("M")) => run15_main(&f[2..]).await,
                 ("15", Some("S")) => run15_sub(&f[2..], &owner).await,
                 ("16", _) => run16(&f[1..]).await,
+                ("17", _) => tables_line(),
                 _ => "BAD-INPUT".to_string(),
             };
             writeln!(o, "{}", res).unwrap();
